@@ -258,3 +258,40 @@ func (a *SliceKiller) Ops(w *World, calm bool) []AgentOp {
 		_ = w.TP("slice-killer", w.Mgmt).Delete(k, "Background")
 	}}}
 }
+
+// ---- slice squatter ---------------------------------------------------------------------
+
+// SliceSquatter is a third party that creates an ObjectSlice under exactly the name PKO is
+// about to create (it sees the parked create request): PKO's create is answered AlreadyExists
+// by a slice that is not its own, which is the name-collision path (counter bumped, next name).
+type SliceSquatter struct{ Budget int }
+
+func (a *SliceSquatter) Name() string { return "slice-squatter" }
+
+func (a *SliceSquatter) Ops(w *World, calm bool) []AgentOp {
+	if calm || a.Budget <= 0 {
+		return nil
+	}
+	var ops []AgentOp
+	for _, act := range w.liveActors() {
+		r := act.pending
+		if act.state != stParked || r == nil || r.Verb != "create" || r.GVK.Group != PKOGroup || !isSliceKind(r.GVK.Kind) || r.Name == "" {
+			continue
+		}
+		key := r.Key()
+		if _, exists := w.Mgmt.Objs[key]; exists {
+			continue
+		}
+		ops = append(ops, AgentOp{Label: "squat " + key.String(), Weight: 3, Do: func(w *World) {
+			a.Budget--
+			w.Stats.Probe("slice-squatter-create")
+			w.Tracef("THIRD PARTY takes the slice name %s", key)
+			o := store.Obj{"apiVersion": PKOGroup + "/" + PKOVer, "kind": key.Kind, "metadata": map[string]any{"name": key.Name}, "objects": []any{}}
+			if key.Namespace != "" {
+				store.Meta(o)["namespace"] = key.Namespace
+			}
+			_, _ = w.TP("slice-squatter", w.Mgmt).Create(o)
+		}})
+	}
+	return ops
+}
